@@ -31,6 +31,7 @@ import (
 	"sync"
 
 	"github.com/jmeaster30/vore/libvore"
+	"github.com/jmeaster30/vore/libvore/engine"
 	"verif/simrt"
 )
 
@@ -78,7 +79,7 @@ func (c *c13) Assumptions() []string {
 }
 
 func (c *c13) ProbeNames() []string {
-	return []string{"hist_pair_repeated_after_other_compile", "hist_recompiled_same_source", "hist_old_handle_run_after_recompile", "sess_def_referenced_from_two_commands", "sess_def_referenced_twice_in_command", "sess_nested_definition", "sess_subroutine_reading_compared", "sess_or_in_body_referenced_twice", "sess_reference_inside_loop_min2"}
+	return []string{"hist_pair_repeated_after_other_compile", "hist_recompiled_same_source", "hist_old_handle_run_after_recompile", "sess_def_referenced_from_two_commands", "sess_def_referenced_twice_in_command", "sess_nested_definition", "sess_subroutine_reading_compared", "sess_or_in_body_referenced_twice", "sess_reference_inside_loop_min2", "sess_runfiles_concatenation_compared"}
 }
 
 func (c *c13) SweepPrefix(string, uint64) []uint64 { return nil }
@@ -637,6 +638,15 @@ func (c *c13) runSession(ctx *RunCtx) *RunResult {
 	text := string(tb)
 	randSeed := int64(t.Draw(1 << 30))
 	mapSeed := uint64(t.Draw(1 << 30))
+	useFiles := ncmds >= 2 && t.Draw(3) == 1
+	text2 := ""
+	if useFiles {
+		tb2 := make([]byte, t.Range(0, 16))
+		for i := range tb2 {
+			tb2[i] = "abc1 ab"[t.Draw(7)]
+		}
+		text2 = string(tb2)
+	}
 
 	var whole strings.Builder
 	for _, d := range defs {
@@ -690,11 +700,51 @@ func (c *c13) runSession(ctx *RunCtx) *RunResult {
 			aborted = true
 		}
 	}
+	// the same clause through files: RunFiles(whole, [f1, f2]) must be the
+	// concatenation over the commands of RunFiles(command alone, [f1, f2])
+	filesWhole, filesConcat := "", ""
+	filesChecked := false
+	if useFiles && !aborted && oWhole.Class == "ok" {
+		f1 := filepath.Join(ctx.World, "s1.txt")
+		f2 := filepath.Join(ctx.World, "s2.txt")
+		os.WriteFile(f1, []byte(text), 0644)
+		os.WriteFile(f2, []byte(text2), 0644)
+		runOn := func(src string) Outcome {
+			rand.Seed(randSeed)
+			randSeed++
+			simrt.OpStart(budget)
+			defer simrt.OpEnd()
+			v, oc := doCompile(src)
+			if v == nil {
+				return oc
+			}
+			o, _ := doRunFiles(v, []string{f1, f2}, engine.NOTHING, ctx.World)
+			return o
+		}
+		ow := runOn(d.Whole)
+		okAll := ow.Class == "ok"
+		filesWhole = ow.Digest
+		for j := range cmds {
+			oa := runOn(alone[j])
+			if oa.Class != "ok" {
+				okAll = false
+			}
+			filesConcat += oa.Digest
+		}
+		filesChecked = okAll
+	}
 	res.Steps = simrt.Steps
 	simrt.Stop()
 	evh := hashStr(oWhole.String())
 	for j := range cmds {
 		evh = mix(evh, hashStr(oAlone[j].String()), hashStr(oExp[j].String()), hashStr(oSub[j].String()))
+	}
+	evh = mix(evh, hashStr(filesWhole), hashStr(filesConcat))
+	if filesChecked {
+		ctx.Count("sess_runfiles_concatenation_compared", 1)
+		if filesWhole != filesConcat {
+			addV("session-concatenation", "sess-runfiles-concat-mismatch", fmt.Sprintf("RunFiles of the multi-command source over two files gives %q, but its commands taken alone with their definitions, run over the same two files and concatenated, give %q; source:\n%s\nfiles hold %q and %q", trunc(filesWhole, 300), trunc(filesConcat, 300), d.Whole, text, text2))
+		}
 	}
 	res.EventHash = evh
 	res.Sig = mix(hashStr(d.Whole), hashStr(text))
